@@ -242,11 +242,20 @@ func c05Case(id string, k1, k2, class, placement string, alias bool) (mut, ctl *
 			}
 		}
 		var params []Param
+		// every other cell spells its parameters "_"
+		num := strings.TrimSuffix(id, "c")
+		blank := len(num) > 0 && (num[len(num)-1]-'0')%2 == 1
+		pname := func(n string) string {
+			if blank {
+				return "_"
+			}
+			return n
+		}
 		if k1 == "arg" {
-			params = append(params, Param{Name: "a1", Ty: t1})
+			params = append(params, Param{Name: pname("a1"), Ty: t1})
 		}
 		if withSecond && k2 == "arg" {
-			params = append(params, Param{Name: "a2", Ty: t2})
+			params = append(params, Param{Name: pname("a2"), Ty: t2})
 		}
 		g1 := refs(sup1...)
 		if m1 != nil {
